@@ -261,8 +261,16 @@ def check_consumer(case):
     return r
 
 
+@st.composite
+def st_normal_mri(draw):
+    c = draw(LO.st_mri())
+    c["order"] = draw(st.sampled_from(["H-first", "N-first"]))
+    return c
+
+
 PARTS = [
     Part("tree", check_tree, {"quick": 2400, "thorough": 40000}, strategy=st_normal_tree),
+    Part("mri", check_tree, {"quick": 300, "thorough": 6000}, strategy=st_normal_mri),
     Part("toeplitz", check_toeplitz, {"quick": 500, "thorough": 10000}, strategy=st_toeplitz),
     Part("consumer", check_consumer, {"quick": 600, "thorough": 10000}, strategy=st_consumer),
 ]
